@@ -58,7 +58,8 @@ _ANSWER = [
     'cfg_served(proposed_sop) and not _all_unsupported))',
     # the transfer syntax returned was proposed for this context and is supported
     'oblige("accepted-ts-was-proposed", _ok and implies(_a.result_reason == 0, _inner and '
-    'proposed_ts == _done + _head_1 + _todo_1 and len(_head_1) == 1 and same(_a.ts_sub_item, ts)))',
+    # (the element of the proposal itself, `_head_1[0]` -- not the local `ts`, which the body may rebind: seed R5_C09)
+    'proposed_ts == _done + _head_1 + _todo_1 and len(_head_1) == 1 and same(_a.ts_sub_item, _head_1[0])))',
     'oblige("accepted-ts-is-supported", _ok and implies(_a.result_reason == 0, '
     'cfg_supported_ts(_a.ts_sub_item.name)))',
     # routing tables: bound for this id iff accepted, with the reported transfer syntax
